@@ -774,8 +774,10 @@ func (w *c17World) oracleEvict(job *sev1alpha1.PodMigrationJob, pod *corev1.Pod)
 	} else if p := w.getJob().Status.Phase; p == sev1alpha1.PodMigrationJobFailed || p == sev1alpha1.PodMigrationJobSucceeded {
 		w.h.Fail("C17:failed-job-evicts", "evictor called while the persisted job is already %s", p)
 	}
+	// "the eviction of the TARGET pod": the job names its target by PodRef.UID (recorded by the first reconcile); a same-name
+	// replacement is not the target (repaired by df70d80: evictPod compares the uid before the Eviction condition exists too)
 	if spec := string(job.Spec.PodRef.UID); spec != "" && spec != string(pod.UID) {
-		w.h.Tag("note:evicted-pod-uid-differs-from-recorded-PodRef.UID(same-name-replacement)")
+		w.h.Fail("C17:evicted-not-target", "evictor called for pod uid %q, the job's target is uid %q (same-name replacement)", pod.UID, spec)
 	}
 	if !w.anyFault && w.evictCalls > 1 {
 		w.h.Fail("C17:evict-twice-no-faults", "evictor called %d times in a history without any injected failure", w.evictCalls)
@@ -971,8 +973,11 @@ func (w *c17World) reconcileOp(faults uint64, opLine string) {
 		} else if name := refName(job); name != "" && w.getResv() != nil {
 			h.Fail("C17:expired-keeps-reservation", "job past its TTL (now %d >= ttl %d, phase %q reason %q) but its reservation %s still exists", w.now, w.ttl, st.Phase, st.Reason, name)
 		}
-		if refName(job) == "" && w.getResv() != nil && resvBefore != nil && resvBefore.Labels[reservation.LabelCreatedBy] == reservation.DefaultCreator {
-			h.Tag("note:ttl-abort-leaves-unreferenced-reservation-created-by-this-job")
+		if rv := w.getResv(); refName(job) == "" && refName(before) == "" && !w.midFired && rv != nil && rv.Name == string(job.UID) &&
+			rv.Labels[reservation.LabelCreatedBy] == reservation.DefaultCreator {
+			// open known finding: the reservation was created by this job (named after the job UID, created-by label), the
+			// write of the ReservationRef failed, and the TTL passed before the next reconcile could re-adopt it
+			h.Fail("C17:expired-keeps-reservation:ref-write-failed", "job past its TTL (now %d >= ttl %d, phase %q reason %q) has no ReservationRef, the reservation %s it created still exists", w.now, w.ttl, st.Phase, st.Reason, rv.Name)
 		}
 		if !becameTimeout && !terminal(st.Phase) {
 			h.Tag("note:ttl-passed-but-not-failed")
@@ -1605,13 +1610,32 @@ func TestVerifC17Read(t *testing.T) {
 		t.Skip("VERIF_OUT not set")
 	}
 	tmpl, base := c17Setup()
-	n := h.N(5000, 60000)
+	n := h.N(5000, 40000)
 	for idx := 0; idx < n; idx++ {
 		r := h.Begin(idx)
 		if r == nil {
 			continue
 		}
 		switch {
+		case idx%40 == 1:
+			// directed: a fresh job whose reservation gets created but whose ReservationRef write fails (4th write of the first
+			// reconcile); then the TTL passes (or not) before the next reconcile can re-adopt the reservation
+			w := c17InitCase(h, r, tmpl, base, &c17Fix{fresh: true})
+			w.reconcile(8)
+			if r.Chance(1, 4) {
+				w.reconcile(c17GenFaults(r, false)) // re-adopts: Create answers AlreadyExists, the ref is written
+			}
+			if r.Chance(3, 4) {
+				w.now += 300
+				w.clk.Step(300 * time.Second)
+				h.Op("tick 300")
+			}
+			for s, steps := 0, r.Range(1, 3); s < steps; s++ {
+				rf, evs := c17GenScript(r, w)
+				w.reconcileX(c17GenFaults(r, true), rf, evs)
+			}
+			w.reconcile(0)
+			h.Tag("stream:directed-ref-write-failed")
 		case idx%3 == 0:
 			// directed: a job half way (Running, ReservationRef, reservation just scheduled on another node, pod on node 1);
 			// ONE read fault or ONE scripted event swept over every call position of the reconcile that would evict
